@@ -69,6 +69,11 @@ def binary_forms(a, b, full=True):
         (f"{{'a': ({a}), 'b': ({b})}}.c", "Dict2Absent"), (f"{{'a': ({a}), 'b': ({b})}}['c']", "Dict2AbsentKey"),
         (f"({a}) if ({b}) else ({a})", "IfExpT"), (f"({a}) if ({a}) else ({b})", "IfExpE"), (f"(({a}), ({b}))", "Tuple2"),
         (f"[({a}), ({b})]", "List2"), (f"{{'a': ({a}), 'jet-pt': ({b})}}", "Dict2"), (f"(lambda q: ({a}))({b})", "CalledLambda"),
+        # a key that is an identifier and still no field a record class can have (python's own names) next to an ordinary one, the
+        # ordinary one read through an indirection: a field of an outer record, an element of a tuple, a conditional
+        (f"{{'evt': {{'__debug__': ({a}), 'met': ({b})}}}}.evt.met", "DictOddIdentKeySiblingViaOuter"), (f"({{'mro': ({a}), 'jets': ({b})}}, 1)[0].jets", "DictOddIdentKeySiblingViaTuple"),
+        (f"{{'sel': {{'__doc__': ({a}), 'n': ({b})}}}}['sel'].n", "DictOddIdentKeySiblingViaOuterKey"), (f"{{'__module__': ({a}), 'k': ({b})}}.k", "DictOddIdentKeySibling"),
+        (f"({{'__debug__': ({a}), 'k': ({b})}} if e else {{'__debug__': ({a}), 'k': ({b})}}).k", "DictOddIdentKeySiblingViaIfExp"),
         # records in both branches: the same fields, field by field the pairs a conditional takes (or does not take)
         (f"{{'k': ({a}), 'n': 1}} if e else {{'n': 2.5, 'k': ({b})}}", "IfExpRecords"), (f"{{'d': {{'k': ({a})}}}} if e else {{'d': {{'k': ({b})}}}}", "IfExpNestedRecords"),
     ]
@@ -231,10 +236,73 @@ def refusal_classes(body):
                 ok = True
             if not ok:
                 r.add("r4-conditional")
-        # field access on something that may be dict-typed without being a dict literal (result of a conditional / subscript)
-        if isinstance(n, (ast.Attribute, ast.Subscript)) and isinstance(n.value, (ast.IfExp, ast.Subscript, ast.Attribute, ast.UnaryOp)) and _may_be_dict(n.value):
-            r.add("r3-dict-key")
+        # field access on something that may be dict-typed without being a dict literal (result of a conditional / subscript): the
+        # displays it can stand for are worked out from the text; a key every one of them defines is no refusal trigger, a key one
+        # of them lacks - or a route that cannot be followed on the text - is
+        if isinstance(n, (ast.Attribute, ast.Subscript)) and isinstance(n.value, (ast.IfExp, ast.Subscript, ast.Attribute, ast.UnaryOp)):
+            cands = _stands_for(n.value)
+            if cands is not None and not any(isinstance(c, ast.Dict) for c in cands):
+                continue
+            key = n.attr if isinstance(n, ast.Attribute) else (n.slice.value if isinstance(n.slice, ast.Constant) else _NOKEY)
+            if cands is None or key is _NOKEY or any(isinstance(c, ast.Dict) and _field(c, key) is None for c in cands):
+                r.add("r3-dict-key")
     return r
+
+
+_NOKEY = object()
+
+
+def _field(d, key):
+    """the value a dictionary display holds for a constant key (the last one written), or None"""
+    found = None
+    for k, v in zip(d.keys, d.values):
+        if k is None or not isinstance(k, ast.Constant):
+            return None
+        try:
+            if type(k.value) is type(key) and k.value == key:
+                found = v
+        except Exception:
+            return None
+    return found
+
+
+def _stands_for(n):
+    """the expressions n can evaluate to, as far as the text tells (conditionals branch, constant projections of displays are
+    followed); None where the text does not tell"""
+    if isinstance(n, ast.IfExp):
+        a, b = _stands_for(n.body), _stands_for(n.orelse)
+        return None if a is None or b is None else a + b
+    if isinstance(n, ast.Subscript) and isinstance(n.value, (ast.Tuple, ast.List)):
+        s = n.slice
+        if isinstance(s, ast.UnaryOp) and isinstance(s.op, ast.USub) and isinstance(s.operand, ast.Constant) and type(s.operand.value) is int:
+            s = ast.Constant(value=-s.operand.value)
+        if isinstance(s, ast.Constant) and type(s.value) is int and -len(n.value.elts) <= s.value < len(n.value.elts) and not any(isinstance(x, ast.Starred) for x in n.value.elts):
+            return _stands_for(n.value.elts[s.value])
+        return None
+    if isinstance(n, (ast.Attribute, ast.Subscript)):
+        base = _stands_for(n.value)
+        if base is None:
+            return None
+        if not any(isinstance(c, ast.Dict) for c in base):
+            return [n]
+        key = n.attr if isinstance(n, ast.Attribute) else (n.slice.value if isinstance(n.slice, ast.Constant) else _NOKEY)
+        out = []
+        for c in base:
+            if not isinstance(c, ast.Dict):
+                out.append(n)
+                continue
+            v = _field(c, key) if key is not _NOKEY else None
+            if v is None:
+                return None
+            r2 = _stands_for(v)
+            if r2 is None:
+                return None
+            out += r2
+        return out
+    if isinstance(n, ast.UnaryOp):
+        base = _stands_for(n.operand)
+        return None if base is None or any(isinstance(c, ast.Dict) for c in base) else [n]
+    return [n]
 
 
 def _may_be_dict(n):
@@ -480,6 +548,25 @@ def _accepts_item_type(cls):
         return False
 
 
+def earlier_queries(ctx, ds):
+    """history: ordinary queries made earlier in the same process whose later stages run on items that HAVE a type (a record, a
+    bool, a number, a tuple), under the parameter names the untyped queries of the enumeration use as free names"""
+    for q in (
+        lambda: ds.Select("lambda e: {'x': e.x, 'attr': e.y}").Select("lambda f: f.x"),
+        lambda: ds.Select("lambda e: e.x > 1").Where("lambda value: value"),
+        lambda: ds.Select("lambda e: {'x': 1}").Select("lambda value: value.x + 1"),
+        lambda: ds.Select("lambda e: e.x > 1").Select("lambda f: f"),
+        lambda: ds.Select("lambda e: (e.x, 2)").Select("lambda value: value[0]"),
+        lambda: ds.Select("lambda e: {'jets': e.jets}").SelectMany("lambda f: f.jets"),
+        lambda: ds.Select("lambda e: 'text'").Select("lambda f: f"),
+    ):
+        try:
+            q()
+        except Exception:
+            ctx.count("harness:earlier-query-failed")
+    ctx.count("history:earlier-queries-on-typed-items", 7)
+
+
 def shard_main(ctx):
     from func_adl import EventDataset
 
@@ -515,6 +602,8 @@ def shard_main(ctx):
         if ctx.out_of_time():
             ctx.count("stopped-by-time-budget")
             break
+        if n % 400 == 0:
+            earlier_queries(ctx, ds)
         try:
             ast.parse(t, mode="eval")
         except SyntaxError:
